@@ -48,8 +48,8 @@ func Tier(quick bool) []*cvapi.Ops {
 			return out
 		}
 	}
-	if quick {
-		return []*cvapi.Ops{bn254.Ops, bls12377.Ops, bw6761.Ops}
-	}
+	// both tiers cover all seven curves (the per-curve back-ends are separate generated copies:
+	// a defect can live in one of them only); the quick tier runs fewer circuits per curve
+	_ = quick
 	return All
 }
